@@ -97,7 +97,7 @@ def gen_argname_case(rng):
 def gen_varkw_case(alpha, rng):
     """f(**kw: Ann) called with 3-4 keyword arguments whose call order is not the sorted order of their names"""
     cands = [t for t in alpha["alphabet"] if t and not any(x["base"]["k"] == "sym" for x in t)]
-    toks = rng.choice([t for t in cands if any("*" in x["mods"] for x in t)] if rng.random() < .7 else cands)
+    toks = rng.choice([t for t in cands if any("*" in x["mods"] and "#" in x["mods"] for x in t)] if rng.random() < .7 else cands)
     n = rng.choice([3, 3, 4])
     names = rng.sample(["k1", "k2", "k3", "k4", "a", "zz"], n)
     if names == sorted(names):
@@ -107,11 +107,18 @@ def gen_varkw_case(alpha, rng):
     for _ in range(n):
         s = c02.instantiate(toks, sigma, rng)
         r = rng.random()
-        if r < .35 and s:
-            s[rng.randrange(len(s))] = 1              # broadcasting candidates
-        elif r < .5 and s:
+        if r < .6:
+            s = [1 if rng.random() < .5 else x for x in s]      # broadcasting candidates (all-ones in the middle of a sequence)
+        elif r < .7 and s:
             s[rng.randrange(len(s))] = rng.randint(1, 3)
         shapes.append(s)
+    if rng.random() < .5 and shapes[0]:
+        # two arguments that disagree in one axis, separated (in CALL order) by one whose variadic part is all ones
+        A = c02.instantiate(toks, sigma, rng)
+        B = list(A)
+        j = rng.randrange(len(A))
+        A[j], B[j] = rng.sample([2, 3, 4], 2)
+        shapes = [A, [1] * len(A), B] + ([list(A)] if n == 4 else [])
     return {"params": [{"nm": nm, "toks": toks} for nm in names], "shapes": shapes, "hasret": False, "rettoks": [], "retshape": [],
             "args": {}, "_varkw": True}
 
@@ -125,7 +132,7 @@ def worker(args):
         while k < n:
             r = rng.random()
             case = (c02.gen_history_case(alpha, rng) if r < .2 else gen_argref_case(rng) if r < .4 else
-                    gen_argname_case(rng) if r < .5 else gen_varkw_case(alpha, rng) if r < .6 else
+                    gen_argname_case(rng) if r < .5 else gen_varkw_case(alpha, rng) if r < .65 else
                     c02.gen_case(alpha, rng, maxp=3, symp=.4))
             if case.pop("_varkw", False):
                 case["variants"] = calls.run_jax_varkw(case, seed=seed + k)
